@@ -184,10 +184,6 @@ class Run:
     return out
 
 
-class _ContractFrameEnv(dict):
-  pass
-
-
 def eval_contract_expr(ex, fr, text, extra_env, params=None, result=None):
   tree = ast.parse(text.strip(), mode="eval").body
   env = {k: v for k, v in fr.env.items() if not k.startswith("$")}
@@ -201,83 +197,14 @@ def eval_contract_expr(ex, fr, text, extra_env, params=None, result=None):
     env["result"] = result
   cfr = Frame(fr.info, closure=fr.closure)
   cfr.env = env
-  ev = _ContractEval(ex, cfr)
-  return ev.eval(tree)
-
-
-class _ContractEval:
-  def __init__(self, ex, fr):
-    self.ex = ex
-    self.fr = fr
-
-  def eval(self, e):
-    ex = self.ex
-    if isinstance(e, ast.Call) and isinstance(e.func, ast.Name):
-      fn = e.func.id
-      if fn == "old":
-        saved = ex.st.arrs
-        ex.st.arrs = ex.st.arrs0
-        try:
-          return self.eval(e.args[0])
-        finally:
-          ex.st.arrs = saved
-      if fn == "implies":
-        a = tobool(self.eval(e.args[0]))
-        b = tobool(self.eval(e.args[1]))
-        return z3.Implies(zb(a), zb(b))
-      if fn == "iff":
-        a = tobool(self.eval(e.args[0]))
-        b = tobool(self.eval(e.args[1]))
-        return zb(a) == zb(b)
-      if fn == "bit":
-        from .sym import bit_of
-
-        x = self.eval(e.args[0])
-        i = self.eval(e.args[1])
-        if not is_conc(i):
-          raise Unsupported("bit(x, symbolic)")
-        if is_conc(x):
-          return bool((x >> i) & 1)
-        return bit_of(lift(x), int(i))
-      if fn == "ite":
-        from .sym import ite
-
-        return ite(simp_bool(tobool(self.eval(e.args[0]))), self.eval(e.args[1]), self.eval(e.args[2]))
-    # generic: delegate to the code translator but with our recursion for sub-expressions that
-    # may contain the special forms
-    if isinstance(e, ast.BoolOp):
-      vals = [tobool(self.eval(v)) for v in e.values]
-      return zand(*vals) if isinstance(e.op, ast.And) else zor(*vals)
-    if isinstance(e, ast.UnaryOp) and isinstance(e.op, ast.Not):
-      return znot(tobool(self.eval(e.operand)))
-    if isinstance(e, ast.Compare) and not any(isinstance(o,(ast.In,ast.NotIn,ast.Is,ast.IsNot)) for o in e.ops):
-      left = self.eval(e.left)
-      res = []
-      for op, r in zip(e.ops, e.comparators):
-        right = self.eval(r)
-        res.append(_cmp(ex, op, left, right))
-        left = right
-      return zand(*res)
-    if isinstance(e, ast.BinOp) and _has_special(e):
-      return ex.binop(e.op, self.eval(e.left), self.eval(e.right))
-    n = len(ex.st.log)
-    try:
-      return ex.eval(e, self.fr)
-    finally:
-      del ex.st.log[n:]
-
-
-def _cmp(ex, op, a, b):
-  if isinstance(a, Vec) and isinstance(b, Vec):
-    if not isinstance(op, (ast.Eq, ast.NotEq)):
-      raise Unsupported("vector ordering")
-    eq = zand(*[ex.ar.compare(ast.Eq(), x, y) for x, y in zip(a.comps, b.comps)])
-    return eq if isinstance(op, ast.Eq) else znot(eq)
-  return ex.ar.compare(op, a, b)
-
-
-def _has_special(e):
-  for n in ast.walk(e):
-    if isinstance(n, ast.Call) and isinstance(n.func, ast.Name) and n.func.id in ("old", "implies", "iff", "bit", "ite"):
-      return True
-  return False
+  n = len(ex.st.log)
+  saved_mode = ex.contract_mode
+  saved_pc = ex.st.pc
+  ex.contract_mode = True
+  ex.st.pc = []
+  try:
+    return ex.eval(tree, cfr)
+  finally:
+    ex.contract_mode = saved_mode
+    ex.st.pc = saved_pc
+    del ex.st.log[n:]
